@@ -89,8 +89,8 @@ type ownGen struct {
 	inFunc *gfunc
 	loop   int
 	// avoidAlias: never pass a variable (or a part of it) by value and the same variable by Referenz in one call.
-	// That construct is the recorded known finding C05/O2-const-param-alias; programs compiled at -O 2 avoid it
-	// so that any other alarm at -O 2 is a new one.
+	// That construct was the recorded finding C05/O2-const-param-alias while it was unrepaired; since the repair
+	// (e9660bf) no check sets it, so the construct is generated for every configuration.
 	avoidAlias bool
 	// withErrors: the program may contain one out-of-domain operation (index / slice out of range, used or unused result)
 	// so that "whether and which run-time error occurs" is exercised; only used where configurations are compared (C11)
@@ -489,15 +489,16 @@ func (g *ownGen) call(e *genv, f *gfunc, d int) (string, bool) {
 		s = strings.Replace(s, "<"+p.name+">", arg, 1)
 		args = append(args, arg)
 	}
-	if g.avoidAlias {
-		for i := range f.params {
-			if !f.refs[i] {
-				continue
-			}
-			for k := range f.params {
-				if k != i && !f.refs[k] && containsIdent(args[k], args[i]) {
+	for i := range f.params {
+		if !f.refs[i] {
+			continue
+		}
+		for k := range f.params {
+			if k != i && !f.refs[k] && containsIdent(args[k], args[i]) {
+				if g.avoidAlias {
 					return "", false
 				}
+				g.roles["call: by-value argument mentions a variable passed by Referenz in the same call"] = true
 			}
 		}
 	}
